@@ -3,6 +3,7 @@
 package main
 
 import (
+	"strings"
 	"bytes"
 	"encoding/json"
 	"fmt"
@@ -102,6 +103,14 @@ func TestC20a(t *testing.T) {
 		sp := gspec.NewSpeller(rt)
 		sp.Boot = true
 		text := sp.Spell(g)
+		if gspec.U(rt, 8, "duprule") == 0 && len(g.Rules) > 0 {
+			// a rule name defined a second time (both front-ends keep every definition, in order)
+			if !strings.HasSuffix(text, "\n") {
+				text += "\n"
+			}
+			text += g.Rules[gspec.U(rt, len(g.Rules), "dupidx")].Name + " = 'dup' [0-9]\n"
+			sp.Features["rule_defined_twice"]++
+		}
 		kind, diff := checkC20a(text)
 		var tags []string
 		for f := range sp.Features {
